@@ -7,6 +7,7 @@ import JominiModel.Spec.BinReader
 import JominiModel.Proofs.BinReader
 import JominiModel.Proofs.BinReaderBytes
 import JominiModel.Proofs.BinReaderPolicy
+import JominiModel.Proofs.BinSkipPolicy
 import JominiModel.Generated.Tables
 /-
 C08 — Streaming binary reader equals the slice lexer; token encoding round-trips.
@@ -415,5 +416,34 @@ example :
       = (AReader.streamAll (AReader.new eagerPolicy 8 (Src.new d s))).1 ∧
     (AReader.streamAll (AReader.new lazyPolicy 8 (Src.new d s))).1 = [.i32 1, .bool true] := by
   constructor <;> rfl
+
+/-- **`skip_container` = the lexer's skip for EVERY buffer policy** (extension of
+`C08_stream_eq_lexer_any_policy`): for every policy meeting `Policy.Contract`, every capacity
+`≥ 1`, every input and well-formed schedule (faults included), after any number `n` of `next`
+calls of the abstract reader: if the slice lexer's `skip_container` on the bytes still to be seen
+succeeds and leaves `l'` (and the lexemes on the way fit, `SkipFits`; always true for
+`cap ≥ 65539`), the streamed `skip_container` lands exactly there — same unread input, same
+position — or returns the I/O error with position ≤ delivered; with a fault-free schedule it
+lands there. -/
+theorem C08_skip_eq_lexer_any_policy (P : Policy) (cap : Nat) (data : Bytes) (sched : List Step)
+    (hP : P.Contract cap) (hcap : 1 ≤ cap) (hwf : Src.WfSched sched) (n : Nat) (l' : Lexer)
+    (hfit : SkipFits cap ((AReader.calls n (AReader.new P cap (Src.new data sched))).2.remaining data) 1)
+    (hlex : (Lexer.mk ((AReader.calls n (AReader.new P cap (Src.new data sched))).2.remaining data)
+        data.length).skipContainer = some (.ok (), l')) :
+    let a := (AReader.calls n (AReader.new P cap (Src.new data sched))).2
+    a.skipContainer.2.position ≤ a.skipContainer.2.src.delivered ∧
+    ((a.skipContainer.1 = .ok () ∧ a.skipContainer.2.remaining data = l'.data ∧
+        a.skipContainer.2.position = l'.position) ∨
+     a.skipContainer.1 = .error ⟨a.skipContainer.2.position, .read⟩) ∧
+    (Src.NoFaults a.src.sched → a.skipContainer.1 = .ok ()) := by
+  intro a
+  have h0 := ainv_new P cap data sched hP hcap hwf
+  obtain ⟨a1, a2⟩ := acalls_inv data n _ h0 hP
+  have hc : a.cap = cap := a2
+  obtain ⟨_, b2, b3, b4⟩ := askip_any data a l' a1 (by rw [hc]; exact hP) (by rw [hc]; exact hfit) hlex
+  refine ⟨b2, ?_, b4⟩
+  rcases b3 with ⟨c1, c2, c3⟩ | ⟨c1, _⟩
+  · exact Or.inl ⟨c1, c2, c3⟩
+  · exact Or.inr c1
 
 end Jomini.Props.C08
